@@ -123,3 +123,84 @@ func verifC03Reconstruct() {
 	vObserve(len(got), c.ECHAccepted())
 	vReach("checked")
 }
+
+// verifC03Interpreted: the ech_outer_extensions marker references the outer
+// extensions the parser itself interprets - server_name, supported_versions,
+// ALPN - and a large key_share (300 / 1300 bytes, as post-quantum shares are), a
+// symbolic subset in outer order; what is not referenced the inner hello carries
+// itself (its own SNI / a two-entry version list / its own ALPN).  The encoded
+// inner hello may (non-conformingly) carry a session id of its own: the outer
+// hello's is substituted all the same.  ServerName / ALPNProtos are those of
+// the reconstructed hello.
+func verifC03Interpreted() {
+	name := []byte("pub.example")
+	k := vMakeKey(0, vByte(), [][2]uint16{{1, 1}}, name)
+	big := make([]byte, []int{300, 1300, 2}[vInt(0, 2)])
+	for i := range big {
+		big[i] = byte(i)
+	}
+	outer := vHello{version: 0x0303, random: vBytes(32), sid: vBytes(2 * vInt(0, 1)), suites: []byte{0x13, 0x01}, comp: []byte{0}}
+	outer.exts = []vExt{vSNI(name), vVersions(0x0304), vALPN([][]byte{[]byte("h2"), []byte("http/1.1")}), {51, big}, {0xfe0d, nil}}
+	refSNI, refVer, refALPN, refKS := vBool(), vBool(), vBool(), vBool()
+	innerName := vBytes(3)
+	proto := vBytes(2)
+	var innerExts, wantExts, refExts []vExt
+	var refTypes []uint16
+	own := func(e vExt) {
+		innerExts = append(innerExts, e)
+		wantExts = append(wantExts, e)
+	}
+	ref := func(i int) {
+		refTypes = append(refTypes, outer.exts[i].typ)
+		refExts = append(refExts, outer.exts[i])
+	}
+	if refSNI {
+		ref(0)
+	} else {
+		own(vSNI(innerName))
+	}
+	own(vECHInner())
+	if refVer {
+		ref(1)
+	} else {
+		own(vVersions(0x0303, 0x0304))
+	}
+	if refALPN {
+		ref(2)
+	} else {
+		own(vALPN([][]byte{proto}))
+	}
+	if refKS {
+		ref(3)
+	}
+	if len(refTypes) > 0 {
+		innerExts = append(innerExts, vOuterExtensions(refTypes))
+		wantExts = append(wantExts, refExts...)
+	}
+	inner := vHello{version: 0x0303, random: vBytes(32), suites: []byte{0x13, 0x02}, comp: []byte{0}, exts: innerExts}
+	enc := inner
+	enc.sid = vBytes(vInt(0, 2)) // conforming clients send it empty
+	sealed := vSeal(k, 1, 1, outer, 4, enc.body())
+	tr := newVTransport(sealed.outer.record())
+	c, err := NewConn(context.Background(), tr, WithKeys([]Key{k.key()}))
+	vAssert(err == nil && c.ECHAccepted(), "honest ECH hello accepted (interpreted extensions referenced from the outer hello)")
+	want := inner
+	want.sid = outer.sid
+	want.exts = wantExts
+	wantMsg := vHandshake(want.body())
+	got, _ := vReadAll(c, 4096, 5+len(wantMsg))
+	vAssert(len(got) == 5+len(wantMsg) && got[0] == 22 && int(got[3])<<8|int(got[4]) == len(wantMsg), "record header frames the inner hello")
+	vAssert(vBytesEq(got[5:], wantMsg), "reconstructed inner hello is byte-exact (outer session id, references spliced in place)")
+	if refSNI {
+		vAssert(c.ServerName() == string(name), "ServerName is that of the reconstructed hello (referenced outer SNI)")
+	} else {
+		vAssert(vBytesEq([]byte(c.ServerName()), innerName), "ServerName is the inner SNI")
+	}
+	al := c.ALPNProtos()
+	if refALPN {
+		vAssert(len(al) == 2 && al[0] == "h2" && al[1] == "http/1.1", "ALPNProtos is that of the reconstructed hello (referenced outer ALPN)")
+	} else {
+		vAssert(len(al) == 1 && vBytesEq([]byte(al[0]), proto), "ALPNProtos is the inner ALPN list")
+	}
+	vReach("interpreted")
+}
